@@ -1,3 +1,214 @@
 package llvc
 
-func SelfTestMain(args []string) int { return 0 }
+import (
+	"flag"
+	"fmt"
+	"os"
+	"path/filepath"
+	"runtime"
+	"strings"
+	"time"
+
+	"bngvc/smt"
+)
+
+// mutation is one deliberate defect seeded into a scratch copy of a program.
+type mutation struct {
+	name   string
+	file   string // base name in RepoBPFDir
+	fn     string
+	edits  [][2]string // (old, new) replaced once each, in order
+	expect string      // obligation kind that must fail
+	where  string      // substring the failing obligation's id must contain ("" = any)
+	replay bool        // the counterexample must reproduce on the native code
+}
+
+var selfMutations = []mutation{
+	{
+		name: "qos: IP header bounds check deleted", file: "qos_ratelimit.c", fn: "qos_egress_prog",
+		edits:  [][2]string{{"\tstruct iphdr *ip = data + sizeof(*eth);\n\tif ((void *)(ip + 1) > data_end)\n\t\treturn TC_ACT_OK;\n", "\tstruct iphdr *ip = data + sizeof(*eth);\n"}},
+		expect: "inbounds", where: "if.end", replay: true,
+	},
+	{
+		name: "antispoof: Ethernet header bounds check deleted", file: "antispoof.c", fn: "antispoof_ingress",
+		edits:  [][2]string{{"\tstruct ethhdr *eth = data;\n\tif ((void *)(eth + 1) > data_end)\n\t\treturn TC_ACT_OK;\n", "\tstruct ethhdr *eth = data;\n"}},
+		expect: "inbounds", where: "", replay: true,
+	},
+	{
+		name: "dhcp: option scan window check weakened (12 -> 6 bytes)", file: "dhcp_fastpath.c", fn: "dhcp_fastpath_prog",
+		edits:  [][2]string{{"if ((void *)(opts + 12) > data_end)", "if ((void *)(opts + 6) > data_end)"}},
+		expect: "inbounds", where: "get_dhcp_msg_type", replay: true,
+	},
+	{
+		name: "dhcp: circuit-id copy loop runs past the 32-byte key (stack overflow)", file: "dhcp_fastpath.c", fn: "dhcp_fastpath_prog",
+		edits: [][2]string{
+			{"if (cid_len > 0 && cid_len <= CIRCUIT_ID_KEY_LEN &&\n\t\t\t\t    (void *)(opts + 7 + cid_len) <= data_end) {\n\t\t\t\t\t#pragma unroll\n\t\t\t\t\tfor (int i = 0; i < CIRCUIT_ID_KEY_LEN; i++) {",
+				"if (cid_len > 0 && cid_len <= 40 &&\n\t\t\t\t    (void *)(opts + 7 + cid_len) <= data_end) {\n\t\t\t\t\t#pragma unroll\n\t\t\t\t\tfor (int i = 0; i < 40; i++) {"},
+		},
+		expect: "inbounds", where: "extract_circuit_id_fixed", replay: false,
+	},
+	{
+		name: "qos: verdict outside the TC action set", file: "qos_ratelimit.c", fn: "qos_ingress_prog",
+		edits:  [][2]string{{"\t/* Drop packet - rate limit exceeded */\n\treturn TC_ACT_SHOT;\n}\n\nchar _license", "\treturn 42;\n}\n\nchar _license"}},
+		expect: "verdict", where: "", replay: true,
+	},
+	{
+		name: "qos: frame rewritten before TC_ACT_OK", file: "qos_ratelimit.c", fn: "qos_egress_prog",
+		edits:  [][2]string{{"\t/* Only process IPv4 */\n\tif (eth->h_proto != bpf_htons(ETH_P_IP))\n\t\treturn TC_ACT_OK;\n\n\t/* Parse IP header */\n\tstruct iphdr *ip = data + sizeof(*eth);\n\tif ((void *)(ip + 1) > data_end)\n\t\treturn TC_ACT_OK;\n\n\t/* Get destination IP", "\teth->h_dest[0] ^= 1;\n\t/* Only process IPv4 */\n\tif (eth->h_proto != bpf_htons(ETH_P_IP))\n\t\treturn TC_ACT_OK;\n\n\t/* Parse IP header */\n\tstruct iphdr *ip = data + sizeof(*eth);\n\tif ((void *)(ip + 1) > data_end)\n\t\treturn TC_ACT_OK;\n\n\t/* Get destination IP"}},
+		expect: "pass_unmodified", where: "", replay: true,
+	},
+}
+
+// SelfTestMain implements `bngvc llvc-selftest`: (1) the unmodified programs
+// have all inbounds/unwind/verdict obligations discharged, (2) seeded defects
+// in scratch copies (never inside the repository) make the expected
+// obligation fail with a model that replays on the native code.
+func SelfTestMain(args []string) int {
+	fs := flag.NewFlagSet("llvc-selftest", flag.ExitOnError)
+	timeout := fs.Duration("timeout", 10*time.Second, "per-obligation solver timeout")
+	workers := fs.Int("j", runtime.NumCPU(), "parallel solver processes")
+	quick := fs.Bool("quick", false, "baseline only for qos_ratelimit.c and antispoof.c")
+	fs.Parse(args)
+	solver := smt.NewSolver(*timeout, "")
+	fail := 0
+	t0 := time.Now()
+	check := func(ok bool, format string, a ...interface{}) {
+		tag := "ok  "
+		if !ok {
+			tag = "FAIL"
+			fail++
+		}
+		fmt.Printf("  [%s] %s\n", tag, fmt.Sprintf(format, a...))
+	}
+	// ---- baseline
+	files := []string{"qos_ratelimit.c", "antispoof.c", "dhcp_fastpath.c", "nat44.c"}
+	if *quick {
+		files = files[:2]
+	}
+	fmt.Println("baseline: unmodified programs")
+	for _, f := range files {
+		mod, err := Compile(filepath.Join(RepoBPFDir, f))
+		if err != nil {
+			check(false, "%s: %v", f, err)
+			continue
+		}
+		for _, ep := range mod.EntryPoints() {
+			sp, err := LoadSpec(SpecFile, mod.CFile, ep.Name, ProgTypeOfSection(ep.Section))
+			if err != nil {
+				check(false, "%s: %v", f, err)
+				continue
+			}
+			rep, err := Check(mod, ep.Name, Options{Property: "SELFTEST", Spec: sp}, solver, *workers, CheckOptions{Kinds: "inbounds,unwind,verdict,divzero,helperarg,unreachable"})
+			if err != nil {
+				check(false, "%s/%s: %v", f, ep.Name, err)
+				continue
+			}
+			if rep.Result.Rejected != "" {
+				check(false, "%s/%s: out of reach: %s", f, ep.Name, rep.Result.Rejected)
+				continue
+			}
+			bad := 0
+			for _, s := range rep.Solved {
+				if s.Status != "unsat" {
+					bad++
+					fmt.Printf("         %s %s\n", s.Status, s.O.ID)
+				}
+			}
+			check(bad == 0, "%s/%s: %d inbounds/unwind/verdict obligations, %d not discharged (%.1fs)", f, ep.Name, len(rep.Solved), bad, rep.TimeS)
+		}
+	}
+	// ---- mutations
+	fmt.Println("seeded defects (scratch copies under the temp dir)")
+	for _, mu := range selfMutations {
+		dir, err := os.MkdirTemp("", "llvc-selftest-")
+		if err != nil {
+			check(false, "%v", err)
+			continue
+		}
+		func() {
+			defer os.RemoveAll(dir)
+			abs, _ := filepath.Abs(dir)
+			if strings.HasPrefix(abs, "/repo") || strings.HasPrefix(abs, "/verif") {
+				check(false, "scratch directory %s is inside a protected tree", abs)
+				return
+			}
+			src, err := os.ReadFile(filepath.Join(RepoBPFDir, mu.file))
+			if err != nil {
+				check(false, "%s: %v", mu.name, err)
+				return
+			}
+			text := string(src)
+			for _, ed := range mu.edits {
+				if !strings.Contains(text, ed[0]) {
+					check(false, "%s: edit anchor not found in %s (source changed?)", mu.name, mu.file)
+					return
+				}
+				text = strings.Replace(text, ed[0], ed[1], 1)
+			}
+			cf := filepath.Join(dir, mu.file)
+			if err := os.WriteFile(cf, []byte(text), 0o644); err != nil {
+				check(false, "%s: %v", mu.name, err)
+				return
+			}
+			mod, err := Compile(cf)
+			if err != nil {
+				check(false, "%s: %v", mu.name, err)
+				return
+			}
+			f := mod.Funcs[mu.fn]
+			if f == nil {
+				check(false, "%s: no function %s", mu.name, mu.fn)
+				return
+			}
+			sp, err := LoadSpec(SpecFile, mod.CFile, mu.fn, ProgTypeOfSection(f.Section))
+			if err != nil {
+				check(false, "%s: %v", mu.name, err)
+				return
+			}
+			rep, err := Check(mod, mu.fn, Options{Property: "SELFTEST", Spec: sp}, solver, *workers, CheckOptions{Replay: true, Kinds: mu.expect})
+			if err != nil {
+				check(false, "%s: %v", mu.name, err)
+				return
+			}
+			if rep.Result.Rejected != "" {
+				check(false, "%s: out of reach: %s", mu.name, rep.Result.Rejected)
+				return
+			}
+			var hit *Solved
+			nfail := 0
+			for i := range rep.Solved {
+				s := &rep.Solved[i]
+				if s.Status == "sat" && s.O.Kind == mu.expect {
+					nfail++
+					if hit == nil && strings.Contains(s.O.ID, mu.where) {
+						hit = s
+					}
+				}
+			}
+			if hit == nil {
+				check(false, "%s: no failing %s obligation", mu.name, mu.expect)
+				return
+			}
+			check(hit.Model != nil, "%s: %s fails with a model (%d failing %s obligations; first: %s)", mu.name, mu.expect, nfail, mu.expect, hit.O.ID)
+			if hit.Model != nil {
+				fmt.Printf("         model: frame_len=%d ret=%d, %d helper calls on the path\n", hit.Model.Len, hit.Model.Ret, len(hit.Model.Calls))
+			}
+			if mu.replay {
+				rr := rep.Replays[hit.O.ID]
+				check(rr != nil && rr.Status == "reproduced", "%s: replay on native code: %s", mu.name, replayText(rr))
+			}
+		}()
+	}
+	fmt.Printf("llvc selftest: %d failures, %.1fs\n", fail, time.Since(t0).Seconds())
+	if fail > 0 {
+		return 1
+	}
+	return 0
+}
+
+func replayText(rr *ReplayResult) string {
+	if rr == nil {
+		return "no replay"
+	}
+	return rr.Status + " — " + rr.Detail
+}
